@@ -773,6 +773,32 @@ func checkShortCircuit(w *World, r *Report) {
 						}
 					}
 				}
+				// a helper that is handed the operator and the left operand and answers with a
+				// flag ("decided"): what its returns with that answer imply about both
+				if ex, isEx := v.(*ssa.Extract); isEx {
+					if hc, isCall := ex.Tuple.(*ssa.Call); isCall {
+						if sums, ok := shortCircuitSummaries(hc, toBool, func(a ssa.Value) bool { return resultOf[a] == "BinaryNode.left" }); ok {
+							for _, sum := range sums {
+								if ex.Index < len(sum.res) && sum.res[ex.Index] != 0 && (sum.res[ex.Index] == 1) != onTrue {
+									continue
+								}
+								m := n
+								m.ops &= sum.ops
+								if m.ops == 0 {
+									continue
+								}
+								if sum.lb != 0 {
+									if m.lb != 0 && m.lb != sum.lb {
+										continue
+									}
+									m.lb = sum.lb
+								}
+								dfs(m)
+							}
+							continue
+						}
+					}
+				}
 				switch toBoolOf(v) {
 				case "BinaryNode.left":
 					want := int8(2)
@@ -1935,4 +1961,112 @@ func checkTagTextConsumed(w *World, r *Report, rule string) {
 		})
 	}
 	r.floor("keyword splits of tag text in the tokenizer", n, 2)
+}
+
+// shortCircuitSummaries: for a call h(…, n.operator, …, left, …) of a package helper that only
+// compares the operator with constants and asks toBool(left), the states in which h returns:
+// which operators are still possible, what toBool(left) was, and the constant bool results
+// (1 true, 2 false, 0 not constant).
+type scSummary struct {
+	ops uint8
+	lb  int8
+	res []int8
+}
+
+func shortCircuitSummaries(c *ssa.Call, toBool *types.Func, isLeft func(ssa.Value) bool) ([]scSummary, bool) {
+	h := c.Call.StaticCallee()
+	if h == nil || !isTwigFn(h) || len(h.Blocks) == 0 || len(h.Blocks) > 40 {
+		return nil, false
+	}
+	var opParam, leftParam *ssa.Parameter
+	for i, a := range c.Call.Args {
+		if i >= len(h.Params) {
+			break
+		}
+		if _, ok := fieldLoad(unspill(a), "BinaryNode", "operator"); ok {
+			opParam = h.Params[i]
+		}
+		if isLeft(a) {
+			leftParam = h.Params[i]
+		}
+	}
+	if opParam == nil || leftParam == nil {
+		return nil, false
+	}
+	opBit := map[string]uint8{"and": 1, "&&": 2, "or": 4, "||": 8}
+	type hst struct {
+		b   *ssa.BasicBlock
+		ops uint8
+		lb  int8
+	}
+	var out []scSummary
+	seen := map[hst]bool{}
+	var dfs func(s hst)
+	dfs = func(s hst) {
+		if seen[s] {
+			return
+		}
+		seen[s] = true
+		for _, in := range s.b.Instrs {
+			if ret, ok := in.(*ssa.Return); ok {
+				sum := scSummary{ops: s.ops, lb: s.lb}
+				for _, rv := range retResults(ret) {
+					k := int8(0)
+					if isConstBool(rv, true) {
+						k = 1
+					} else if isConstBool(rv, false) {
+						k = 2
+					}
+					sum.res = append(sum.res, k)
+				}
+				out = append(out, sum)
+			}
+		}
+		v, trueIdx, ok := ifCond(s.b)
+		for i, succ := range s.b.Succs {
+			n := s
+			n.b = succ
+			if ok {
+				onTrue := i == trueIdx
+				if bo, isBo := v.(*ssa.BinOp); isBo && bo.Op == token.EQL {
+					var side, cst ssa.Value = bo.X, bo.Y
+					if _, isC := bo.X.(*ssa.Const); isC {
+						side, cst = bo.Y, bo.X
+					}
+					if unspill(side) == ssa.Value(opParam) {
+						if cs, okc := constString(cst); okc {
+							bit, known := opBit[cs]
+							if onTrue {
+								if known {
+									n.ops &= bit
+								} else {
+									n.ops &= 16
+								}
+							} else if known {
+								n.ops &^= bit
+							}
+							if n.ops == 0 {
+								continue
+							}
+						}
+					}
+				}
+				if tc, isCall := v.(*ssa.Call); isCall && calleeFunc(tc) == toBool {
+					if args := callArgs(tc); len(args) == 1 && unspill(args[0]) == ssa.Value(leftParam) {
+						want := int8(2)
+						if onTrue {
+							want = 1
+						}
+						if n.lb != 0 && n.lb != want {
+							continue
+						}
+						n.lb = want
+					}
+				}
+			}
+			dfs(n)
+		}
+	}
+	dfs(hst{b: h.Blocks[0], ops: 31})
+	return out, len(out) > 0
 }
